@@ -17,7 +17,7 @@ use neurons::tensor::Tensor;
 pub fn meta(ctx: &Ctx) -> Meta {
     let t = ctx.tier.thorough();
     Meta {
-        rule: format!("(a) single layers through their public backward(): {} of the lattice L for convolution, deconvolution, max-pool (linear activation; ring x E5), dense n,m in 1..4 x E5 x bias, input and upstream gradient given flat or as CxHxW: weight/kernel, bias and INPUT gradient vs the dual-number derivative of sum_k g_k*out_k. (a') a LARGE-VALUE ring (kernel 5,7; stride 3,4; padding 3; dilation 3; 4,8 channels; 8,16 filters; planes 12x13, 28x32) with <= 1 (thorough 2) deviations, wide dense layers (33, 65x64, 100, 241) alone and stacked. (b) networks: every layer sequence of <= {} tokens over 5 input shapes with <= {} deviations x 7 objectives (cycled), through Network::backward and through one learn() step with SGD (parameter change = -lr*gradient); soft-max head of width 2,3,5 under cross-entropy on every sequence of <= {} tokens: derivative of CE(softmax(z)); networks also built a second way, through placeholder activations and set_activation. Data re-drawn until every ReLU pre-activation and pool runner-up is >= 0.1 from a kink/tie. Non-trivial = case whose reference gradient has >= 2 distinct non-zero entries",
+        rule: format!("(a) single layers through their public backward(): {} of the lattice L for convolution, deconvolution, max-pool (linear activation; ring x E5), dense n,m in 1..4 x E5 x bias, input and upstream gradient given flat or as CxHxW: weight/kernel, bias and INPUT gradient vs the dual-number derivative of sum_k g_k*out_k. (a') a LARGE-VALUE ring (kernel 5,7; stride 3,4; padding 3; dilation 3; 4,8 channels; 8,16 filters; planes 12x13, 28x32) with <= 1 (thorough 2) deviations, HEAVY layers (3 channels, 8 filters, 24x30 plane: >= 64k multiply-adds; quick: the stride and dilation deviations of convolution and deconvolution, thorough: every single deviation of kernel / stride / padding / dilation per axis for all three kinds), wide dense layers (33, 65x64, 100, 241) alone and stacked. (b) networks: every layer sequence of <= {} tokens over 5 input shapes with <= {} deviations x 7 objectives (cycled), through Network::backward and through one learn() step with SGD (parameter change = -lr*gradient); soft-max head of width 2,3,5 under cross-entropy on every sequence of <= {} tokens: derivative of CE(softmax(z)); networks also built a second way, through placeholder activations and set_activation. Data re-drawn until every ReLU pre-activation and pool runner-up is >= 0.1 from a kink/tie. Non-trivial = case whose reference gradient has >= 2 distinct non-zero entries",
             if t { "the FULL lattice" } else { "the ring of <= 2 deviations" }, if t { 3 } else { 2 }, if t { 2 } else { 1 }, if t { 2 } else { 1 }),
         bound: "kernel <= 3, stride <= 2(3), padding <= 2, dilation <= 2, planes <= 6x7, depth <= 3 (+ soft-max head)".into(),
         exhaustive: true,
@@ -474,6 +474,22 @@ pub fn cases(ctx: &Ctx) -> Vec<Kv> {
             out.push(Kv::new().put("kind", "xlayer").put("layer", kn).put("ix", ixs(&ix)).put("act", if h % 2 == 0 { "linear" } else { "tanh" }).put("flat_in", h % 2).put("flat_grad", (h / 2) % 2));
         }
     }
+    // heavy layers (3 channels, 8 filters, 24x30: 64k multiply-adds and more) x one geometry deviation
+    for (kind, kn) in [(Kind::Conv, "conv"), (Kind::Deconv, "deconv"), (Kind::Pool, "pool")] {
+        let doms = heavy_domains(kind);
+        for ix in deviations(&doms, 1) {
+            if heavy_point(kind, &ix, Act::Linear).is_none() {
+                continue;
+            }
+            // the exact derivative costs one reference pass per input element (2160): the quick tier walks the stride and
+            // dilation deviations of convolution and deconvolution only, the thorough tier all single deviations
+            if !t && (kind == Kind::Pool || ix[0] != 0 || ix[1] != 0 || ix[4] != 0 || ix[5] != 0) {
+                continue;
+            }
+            let h = ix.iter().enumerate().map(|(i, v)| (i + 1) * v).sum::<usize>();
+            out.push(Kv::new().put("kind", "hlayer").put("layer", kn).put("ix", ixs(&ix)).put("act", if h % 2 == 0 { "linear" } else { "tanh" }).put("flat_in", h % 2).put("flat_grad", (h / 2) % 2));
+        }
+    }
     // wide dense layers, alone and behind another layer (the input gradient of the second one matters)
     for (n_in, n_out) in [(33usize, 2usize), (2, 33), (65, 64), (100, 7)] {
         let net = Net::new(Dims::Flat(n_in), vec![L::Dense { n: n_out, act: Act::Tanh, bias: true, drop: None }]);
@@ -550,6 +566,16 @@ pub fn check(seed: u64, case: &Kv, rep: &mut Report) {
             };
             let ix: Vec<usize> = case.list("ix").iter().map(|s| s.parse().unwrap()).collect();
             let (input, l) = xlattice_point(kind, &ix, Act::parse(case.get("act"))).expect("invalid large-value lattice point");
+            check_layer(&Net::new(input, vec![l]), case.bool("flat_in"), case.bool("flat_grad"), seed, case, rep);
+        }
+        "hlayer" => {
+            let kind = match case.get("layer") {
+                "conv" => Kind::Conv,
+                "deconv" => Kind::Deconv,
+                _ => Kind::Pool,
+            };
+            let ix: Vec<usize> = case.list("ix").iter().map(|s| s.parse().unwrap()).collect();
+            let (input, l) = heavy_point(kind, &ix, Act::parse(case.get("act"))).expect("invalid heavy lattice point");
             check_layer(&Net::new(input, vec![l]), case.bool("flat_in"), case.bool("flat_grad"), seed, case, rep);
         }
         "dense" => check_layer(&Net::parse(case.get("net")), false, false, seed, case, rep),
